@@ -1,8 +1,10 @@
 /- line-protocol handler for the Align model (C03).
    tree   : (ts <series>) | (df <frame>) | (arr (L cell*)) | (o <value>) | (L tree*) | (T tree*) | (D (<hexkey> tree)*)
    how    : ij | oj | lj | rj          method : N | ffill | bfill        colhow : ij | oj | lj | rj | N
-   ops    : (align sync <tree> <how> <method> <colhow>)   (align reindex <tree> <how>|(X T:<t>*) <method>)
-            (align index <tree> <how>)                    (align presync <tree> <how> <method>) -/
+   join   : <how> | (X T:<t>*) | (XS T:<t>*) | (XD T:<t>*)   explicit index given as pd.Index / as a Series / as dict(index=..)
+   ops    : (align sync <tree> <join> <method> <colhow>)  (align reindex <tree> <join>|(N I:<n>) <method>)
+            (align index <tree> <how>)                    (align presync <tree> <how> <method>)
+            (align presynck (T <tree>*) (D (<hexkey> <tree>)*) <join> <method>)     presync(f)(*args, columns=False, **kwargs) -/
 import PygModel.Align
 import PygModel.FillDriver
 
@@ -68,6 +70,16 @@ def timeOf : Sexp → Option Int
   | .atom s => if s.startsWith "T:" then (s.drop 2).toString.toInt? else Option.none
   | _ => Option.none
 
+/-- an explicit index in one of its three spellings -/
+def explicitOf : Sexp → Option (List Int)
+  | .node (.atom h :: ts) => if h = "X" || h = "XS" || h = "XD" then ts.mapM timeOf else Option.none
+  | _ => Option.none
+
+def joinOf (s : Sexp) : Option Join :=
+  match howOf s with
+  | some h => some (.how h)
+  | Option.none => (explicitOf s).map .explicit
+
 def replyTree (r : Res Tree) : String :=
   match r with
   | .ok t => "ok " ++ (treeTo t).render
@@ -79,17 +91,27 @@ def modelName : String := "align"
 
 def handle1 (op : String) (args : List Sexp) : Option String := do
   match op, args with
-  | "sync", [t, how, m, ch] =>
-      let t ← treeOf t; let how ← howOf how; let m ← dirOf m; let ch ← colHowOf ch
-      pure (replyTree (sync how m ch t))
+  | "sync", [t, j, m, ch] =>
+      let t ← treeOf t; let j ← joinOf j; let m ← dirOf m; let ch ← colHowOf ch
+      pure (replyTree (syncJ j m ch t))
+  | "presynck", [a, k, j, m] =>
+      let a ← treeOf a; let k ← treeOf k; let j ← joinOf j; let m ← dirOf m
+      match a, k with
+      | .node .tuple aks, .node .dict kks =>
+          pure (replyTree ((presyncCall j m aks kks).map fun r => .node .tuple [("", r.1), ("", r.2)]))
+      | _, _ => Option.none
   | "presync", [t, how, m] =>
       let t ← treeOf t; let how ← howOf how; let m ← dirOf m
       pure (replyTree (presyncArgs how m t))
   | "reindex", [t, ix, m] =>
       let t ← treeOf t; let m ← dirOf m
       match ix with
-      | .node (.atom "X" :: ts) =>
-          let idx ← ts.mapM timeOf
+      | .node [.atom "N", .atom n] =>
+          -- `df_reindex(arrays, n)`: an explicit common length
+          let n ← if n.startsWith "I:" then (n.drop 2).toString.toNat? else Option.none
+          pure (replyTree (reindexTree (.len n) m t))
+      | .node (.atom _ :: _) =>
+          let idx ← explicitOf ix
           pure (replyTree (reindexTree (.times idx) m t))
       | _ =>
           let how ← howOf ix
